@@ -1,4 +1,5 @@
 import ArgMapper.Props.C15
+import ArgMapper.Proofs.TagStrings2
 /-!
 # C15 (continued) — the struct-tag round trip, and what `NewValueSet` refuses
 
@@ -23,30 +24,54 @@ def splitChars (sep : Char) : List Char → List (List Char)
 /-- `String.splitOn` with a one-character separator is the obvious split of the character list -/
 theorem splitOn_char (s : String) (sep : Char) :
     s.splitOn sep.toString = (splitChars sep s.toList).map String.ofList := by
-  sorry
+  have he : ∀ cs, splitChars sep cs = TagStrings.splitChars sep cs := by
+    intro cs
+    induction cs with
+    | nil => rfl
+    | cons c cs ih =>
+      simp only [splitChars, TagStrings.splitChars, ih]
+      split
+      · rfl
+      · cases TagStrings.splitChars sep cs <;> rfl
+  rw [he]
+  exact TagStrings.splitOn_char s sep
 
 /-- **the tag round trip** — a label whose subtype contains no comma survives `valueField` / `fieldLabel` -/
 theorem tag_roundtrip (i : Nat) (l : Label) (h : ',' ∉ l.sub.toList) :
     fieldLabel (valueField i l) = { l with name := lower l.name } := by
-  sorry
+  exact TagStrings.tag_roundtrip i l h
 
 theorem subtypeOK_no_comma (s : String) (h : subtypeOK s = true) : ',' ∉ s.toList := by
-  sorry
+  exact TagStrings.subtypeOK_no_comma s h
 
 /-- `TagRoundTrips` holds for every list of labels the validation accepts -/
 theorem tagRoundTrips_of_ok (vs : List Label) (h : vs.all labelOK = true) : TagRoundTrips vs := by
-  sorry
+  intro i l hl
+  have hm : l ∈ vs := List.mem_of_getElem? hl
+  have hok : labelOK l = true := List.all_eq_true.1 h l hm
+  unfold labelOK at hok
+  rw [Bool.and_eq_true] at hok
+  exact tag_roundtrip i l (subtypeOK_no_comma l.sub hok.1)
 
 /-- **C15_checked** — `NewValueSet` with its validation: a list containing a label that cannot be
 represented is refused; an accepted list yields a set that reports the values back (names lower-cased),
 in order — with no hypothesis left about strings -/
 theorem checked_rejects (vs : List Label) (h : vs.all labelOK = false) :
     newValueSetChecked vs = .error .unrepresentable := by
-  sorry
+  unfold newValueSetChecked
+  rw [h]
+  rfl
 
 theorem checked_values_roundtrip (vs : List Label) (s : ValueSet) (h : newValueSetChecked vs = .ok s) :
     s.labels = vs.map (fun l => { l with name := lower l.name }) ∧
     s.values.map (·.index) = (List.range vs.length).map (· + 1) := by
-  sorry
+  unfold newValueSetChecked at h
+  split at h
+  · next hok =>
+    obtain ⟨s', hs', h1, h2⟩ := values_roundtrip vs (tagRoundTrips_of_ok vs hok)
+    rw [hs'] at h
+    cases h
+    exact ⟨h1, h2⟩
+  · cases h
 
 end ArgMapper.C15
